@@ -80,6 +80,12 @@ func talkBack(ctx storage.Context, epoch int) {
 	storage.Delete(ctx, insideKey)
 }
 
+// Tick forwards a tick: the probe itself calls netmap.newEpoch(epoch) (the
+// transaction must carry the Alphabet witness).
+func Tick(netmap interop.Hash160, epoch int) {
+	contract.Call(netmap, "newEpoch", contract.All, epoch)
+}
+
 // SetMode configures what the probe does to Netmap during its callback.
 func SetMode(mode int, netmap interop.Hash160, arg any) {
 	ctx := storage.GetContext()
